@@ -167,38 +167,6 @@ func main() {
 		fmt.Fprintln(os.Stderr, "cannot start model:", err)
 		os.Exit(2)
 	}
-	var cases []Case
-	if *replay != "" {
-		data, err := os.ReadFile(*replay)
-		if err != nil {
-			fmt.Fprintln(os.Stderr, err)
-			os.Exit(2)
-		}
-		var rp struct {
-			Ops []string `json:"ops"`
-		}
-		if json.Unmarshal(data, &rp) == nil && len(rp.Ops) > 0 {
-			for _, o := range rp.Ops {
-				cases = append(cases, Case{Op: o, NonTrivial: true})
-			}
-		} else {
-			for _, l := range strings.Split(string(data), "\n") {
-				if strings.TrimSpace(l) != "" && !strings.HasPrefix(l, "#") {
-					cases = append(cases, Case{Op: strings.TrimSpace(l), NonTrivial: true})
-				}
-			}
-		}
-	} else {
-		// corpus of minimised past failures first
-		if data, err := os.ReadFile("corpus/" + p.ID + ".ops"); err == nil {
-			for _, l := range strings.Split(string(data), "\n") {
-				if strings.TrimSpace(l) != "" && !strings.HasPrefix(l, "#") {
-					cases = append(cases, Case{Op: strings.TrimSpace(l), Tags: []string{"corpus"}, NonTrivial: true})
-				}
-			}
-		}
-		p.Gen(NewRng(uint64(*seed)), *tier, func(c Case) { cases = append(cases, c) })
-	}
 	crashedSet := map[int]bool{}
 	for _, s := range strings.Split(*crashed, ",") {
 		var k int
@@ -225,22 +193,35 @@ func main() {
 			}
 		}
 	}()
-	seen := map[string]bool{}
+	// cases are processed as they are generated (nothing is kept): generation is deterministic in the
+	// seed, so a restarted run reaches the same indices
+	seen := map[uint64]bool{}
 	nOracle, nMismatch := 0, 0
 	started := time.Now()
-	for i, c := range cases {
+	index := 0
+	stopped := false
+	process := func(c Case) {
+		i := index
+		index++
+		if stopped {
+			return
+		}
 		if *maxTime > 0 && time.Since(started) > *maxTime {
-			break
+			stopped = true
+			return
 		}
 		res.Evaluations++
 		for _, t := range c.Tags {
 			res.Tags[t]++
 		}
-		if c.NonTrivial && !seen[c.Op] {
-			seen[c.Op] = true
-			res.Distinct++
+		if c.NonTrivial {
+			h := fnv64(c.Op)
+			if !seen[h] {
+				seen[h] = true
+				res.Distinct++
+			}
 		}
-		if len(res.Samples) < 5 && (i%(len(cases)/5+1) == 0) {
+		if len(res.Samples) < 5 && (i < 2 || i%997 == 0) {
 			s := c.Op
 			if len(s) > 400 {
 				s = s[:400] + "…"
@@ -249,7 +230,7 @@ func main() {
 		}
 		if crashedSet[i] {
 			res.Failures = append(res.Failures, failure{i, c.Op, "crash", []string{"the implementation process died (fatal error or watchdog) while running this op"}})
-			continue
+			return
 		}
 		if prog != nil {
 			fmt.Fprintf(prog, "%d\n", i)
@@ -277,10 +258,49 @@ func main() {
 			nMismatch++
 		}
 	}
+	if *replay != "" {
+		data, err := os.ReadFile(*replay)
+		if err != nil {
+			fmt.Fprintln(os.Stderr, err)
+			os.Exit(2)
+		}
+		var rp struct {
+			Ops []string `json:"ops"`
+		}
+		if json.Unmarshal(data, &rp) == nil && len(rp.Ops) > 0 {
+			for _, o := range rp.Ops {
+				process(Case{Op: o, NonTrivial: true})
+			}
+		} else {
+			for _, l := range strings.Split(string(data), "\n") {
+				if strings.TrimSpace(l) != "" && !strings.HasPrefix(l, "#") {
+					process(Case{Op: strings.TrimSpace(l), NonTrivial: true})
+				}
+			}
+		}
+	} else {
+		// corpus of minimised past failures first
+		if data, err := os.ReadFile("corpus/" + p.ID + ".ops"); err == nil {
+			for _, l := range strings.Split(string(data), "\n") {
+				if strings.TrimSpace(l) != "" && !strings.HasPrefix(l, "#") {
+					process(Case{Op: strings.TrimSpace(l), Tags: []string{"corpus"}, NonTrivial: true})
+				}
+			}
+		}
+		p.Gen(NewRng(uint64(*seed)), *tier, process)
+	}
 	res.ModelAsks = m.n
 	res.Complete = true
 	data, _ := json.MarshalIndent(res, "", " ")
 	os.WriteFile(*out, data, 0o644)
+}
+
+func fnv64(s string) uint64 {
+	h := uint64(0xcbf29ce484222325)
+	for i := 0; i < len(s); i++ {
+		h = (h ^ uint64(s[i])) * 0x100000001b3
+	}
+	return h
 }
 
 func runGuarded(p *Prop, c Case, m *Model) (v Verdict) {
